@@ -42,8 +42,8 @@ ASSUMPTIONS = ['a bare MAIL/RCPT and an undecodable argument are answered '
                'with an error reply and may end the session (the property '
                'demands the error reply and no callback, not survival)']
 CELL_BUDGET_S = {'quick': 240, 'thorough': 2400}
-SAMPLE_P = 0.003
-MAX_WITNESSES = 3
+SAMPLE_P = 0.02
+MAX_WITNESSES = 6
 
 LINES = [
     b'EHLO there', b'EHLO', b'ehlo there', b'HELO there', b'HELO',
